@@ -101,7 +101,24 @@ package config
 //@ func (*Config).validateListeners
 //@   props C18
 //@   ensures exact: result == nil <==> docListeners(c)
-//@ pred docAllButLogging(c *Config) := docBackends(c) && docServer(c) && docTimeouts(c) && docStrategy(c.LoadBalancer.Strategy) && docPool(c)
+// C18 "never panics": every setting given in seconds must fit a time.Duration (at most 9223372036 s): a larger value
+// wraps around when converted - the health-check ticker then panics at start-up, timeouts silently turn into none
+//@ pred fitsDuration(s int) := s <= 9223372036
+//@ pred docDurations(c *Config) := fitsDuration(c.Server.Timeouts.Read) && fitsDuration(c.Server.Timeouts.Write) && fitsDuration(c.Server.Timeouts.Idle)
+//@      && fitsDuration(c.Server.Timeouts.Handler) && fitsDuration(c.Server.Timeouts.Shutdown) && fitsDuration(c.Server.Timeouts.BackendDial)
+//@      && fitsDuration(c.Server.Timeouts.BackendRead) && fitsDuration(c.Server.Timeouts.BackendIdle) && fitsDuration(c.HealthChecks.Active.Interval)
+//@      && fitsDuration(c.HealthChecks.Active.Timeout) && fitsDuration(c.HealthChecks.Passive.UnhealthyTimeout)
+//@      && fitsDuration(c.LoadBalancer.WebSocketPool.IdleTimeoutSeconds) && fitsDuration(c.RateLimit.RefillRate)
+//@      && fitsDuration(c.CircuitBreaker.IntervalSeconds) && fitsDuration(c.CircuitBreaker.TimeoutSeconds)
+//@ func (*Config).validateDurations
+//@   props C18 C03
+//@   ensures exact: result == nil <==> docDurations(c)
+//@ loop (*Config).validateDurations #0
+//@   props C18 C03
+//@   invariant idx: -1 <= rangeindex && rangeindex < len(ranged)
+//@   invariant seen_ok: forall k int :: {ranged[k]} 0 <= k && k <= rangeindex ==> fitsDuration(ranged[k].seconds)
+//@   decreases len(ranged) - rangeindex
+//@ pred docAllButLogging(c *Config) := docDurations(c) && docBackends(c) && docServer(c) && docTimeouts(c) && docStrategy(c.LoadBalancer.Strategy) && docPool(c)
 //@      && docHealth(c) && docRateLimit(c) && docBreaker(c) && docMetrics(c) && docAdmin(c) && docListeners(c)
 //@ func (*Config).Validate
 //@   props C18
